@@ -101,6 +101,26 @@ func c16Buffer(cs *drv.Case, lens []int, spanCache bool) {
 			cs.Fail("decoded-value-aliases-input", M{"api": "Binary.ReadBinary", "span_cache": spanCache}, M{"len": len(rs[i].snap), "message": fmt.Sprintf("modifying/appending to a returned slice changed the input buffer at %d", firstDiff(in, inSnap))})
 			return
 		}
+		// while value i is modified in place, every other returned value must be unaffected
+		for k := range rs {
+			if k != i && !rs[k].intact() {
+				cs.Fail("decoded-values-share-memory", M{"api": "Binary.ReadBinary", "span_cache": spanCache}, M{"len_modified": len(rs[i].snap), "len_affected": len(rs[k].snap), "message": fmt.Sprintf("writing into returned value #%d changed returned value #%d", i, k)})
+				for j := range rs[i].b {
+					rs[i].b[j] ^= 0xFF
+				}
+				return
+			}
+		}
+		// and a fresh decode of the same bytes must still give the original content
+		if len(rs[i].snap) > 0 {
+			if nb, _, err := thrift.Binary.ReadBinary(in[offs[i]:]); err != nil || !bytes.Equal(nb, vals[i]) {
+				cs.Fail("decoded-values-share-memory", M{"api": "Binary.ReadBinary", "span_cache": spanCache, "what": "later decode"}, M{"len": len(vals[i]), "message": "after a returned value was modified in place, decoding the same input again gives different content"})
+				for j := range rs[i].b {
+					rs[i].b[j] ^= 0xFF
+				}
+				return
+			}
+		}
 		for k := range rs[i].b {
 			rs[i].b[k] ^= 0xFF
 		}
@@ -204,7 +224,7 @@ func monC16(c *drv.Ctx) {
 		c.Stage("buffer/"+name, int64(len(c16Lens)), true, func(cs *drv.Case) {
 			thrift.SetSpanCache(span)
 			l := c16Lens[cs.Idx]
-			lens := []int{l, l, 0, 5, l, 0, 1, l}
+			lens := []int{l, l, 0, 5, l, 0, 1, l, 1, 1, 2, 1}
 			cs.Desc = M{"span_cache": span, "lens": fmt.Sprint(lens)}
 			c16Buffer(cs, lens, span)
 			cs.Count(l >= 1, "buf", span, l)
